@@ -17,10 +17,11 @@ RULE = ('helpers through eqsig.fns.*: interp2d (1..12 strictly increasing nodes:
         'evaluated on implementation outputs; non-trivial = helper input with >= 3 samples/nodes that is not constant, or a design-spectrum call with T > 0')
 TRUSTED = [
     'Coq 8.16.1 kernel + vm_compute; Coq Interval tactic for the point-checks and for C20_ch_jumps (emulated floats over primitive 63-bit integers: the stdlib Uint63/PrimInt63 specification axioms appear under Print Assumptions of that one theorem)',
-    'hand-written model coq/model/M_helpers.v; tie = correspondence of this run (model/K_C20.v) AND, for every helper except interp2d, the source-text tie (generated definitions proved equal to the model)',
+    'hand-written model coq/model/M_helpers.v; tie = correspondence of this run (model/K_C20.v) AND, for every helper (interp2d included), the source-text tie (generated definitions proved equal to the model)',
     'translator/py2coq_design.py (Python ast -> coq/gen/Gen_design_spectra.v, fail-closed, float literals read as their decimal text); tie = regenerated on this run + interval point-checks',
     'c_h_factor: only the scalar kernel is translated; the element loop wrapper is matched syntactically and exercised by list calls',
-    'translator/py2coq_helpers.py (Python ast -> coq/gen/Gen_helpers.v, fail-closed) and the numpy readings of coq/lib/NpHelpers.v / NpList.v: calc_roll_av_vals, calc_step_fn_vals_error, calc_step_fn_steps_vals, interp_left are PROVED equal to the hand model (C20_*_is_source); interp2d is not translated; shapes of element-wise operands are not checked by the reading',
+    'translator/py2coq_helpers.py (Python ast -> coq/gen/Gen_helpers.v, fail-closed) and the numpy readings of coq/lib/NpHelpers.v / NpList.v: calc_roll_av_vals, calc_step_fn_vals_error, calc_step_fn_steps_vals, interp_left are PROVED equal to the hand model (C20_*_is_source); shapes of element-wise operands are not checked by the reading',
+    'translator/py2coq_interp2d.py (same grammar, -> coq/gen/Gen_interp2d.v) and the numpy readings of coq/lib/NpInterp.v (column broadcast, argmin(axis=1), np.where / np.clip on index arrays, row selection): interp2d is PROVED equal to the hand model with eps = the decimal literal 1e-10 (C20_interp2d_is_source); the float 1e-10 differs from 1/10^10 by rounding',
     'np.searchsorted(side=right) modelled as the count of leading nodes <= query (equal on sorted nodes)',
     'exact arithmetic (rounding not modelled; measured against the stated tolerances); x ** 0.75 = Rpower x (3/4)',
     'Python harness (generators, rational encoding, fragile-case classification on the inputs, result parsing)',
@@ -468,8 +469,14 @@ def run(rep, rng, tier):
         py2coq_helpers.regenerate(repo=core.REPO)
     except Exception as e:  # fail closed
         helpers_failed = 'py2coq_helpers: %s: %s' % (type(e).__name__, e)
+    interp2d_failed = None
+    try:  # source-text tie of interp2d: gen/Gen_interp2d.v is re-translated, the C20_interp2d_is_source theorems re-checked
+        import py2coq_interp2d
+        py2coq_interp2d.regenerate(repo=core.REPO)
+    except Exception as e:  # fail closed
+        interp2d_failed = 'py2coq_interp2d: %s: %s' % (type(e).__name__, e)
     rep.prove('Prop_C20', targets=['props/Prop_C20.vo', 'model/K_C20.vo', 'model/K_C20_design.vo'],
-              gen_failed='; '.join(m for m in (gen_failed, helpers_failed) if m) or None)
+              gen_failed='; '.join(m for m in (gen_failed, helpers_failed, interp2d_failed) if m) or None)
     cases, stats = helper_cases(rep, rng, tier)
     rep.extra.update(stats)
     pts, rel = design_points(rep, rng, tier)
